@@ -1,4 +1,6 @@
 import Orca.Gen.ConstExpr
+import Orca.Gen.ApiOutline
+import Orca.Model.ApiOutlineSpec
 import Orca.Lemmas.Helpers
 import Orca.Lemmas.Ops
 import Orca.Lemmas.Redirect
@@ -201,3 +203,14 @@ example : toLe 16 (bitsOf 128 (toSigned 128 (ofLe (List.replicate 16 255)))) = L
 example : toSigned 128 (ofLe (List.replicate 16 255)) = -1 := by decide
 
 end Orca.C30
+
+/-- **The tie to the source (regenerated on every run).** The control-and-call skeletons of the functions this property rests on:
+    the module-level additions are what M2 / M13 were transcribed from. A step moved, an early exit, guard, call or assignment added or removed breaks this obligation; renaming, comments and
+    formatting do not. -/
+theorem c30_addition_code_reviewed :
+    Orca.Gen.ApiOutline.add_global_with_tag = Orca.ApiOutlineSpec.add_global_with_tag
+    ∧ Orca.Gen.ApiOutline.add_data = Orca.ApiOutlineSpec.add_data
+    ∧ Orca.Gen.ApiOutline.add_local_memory_with_tag = Orca.ApiOutlineSpec.add_local_memory_with_tag
+    ∧ Orca.Gen.ApiOutline.add_import_memory_with_tag = Orca.ApiOutlineSpec.add_import_memory_with_tag
+    ∧ Orca.Gen.ApiOutline.add_import_func_with_tag = Orca.ApiOutlineSpec.add_import_func_with_tag :=
+  ⟨rfl, rfl, rfl, rfl, rfl⟩
